@@ -28,6 +28,7 @@ from __future__ import annotations
 
 import sys
 import threading
+import time
 
 HOT_SUFFIXES = ('fpy2/number/gmputils.py', 'fpy2/interpret/byte.py', 'fpy2/interpret/interpreter.py')
 ROUNDED_FILES = ('fpy2/ops.py',)
@@ -186,16 +187,14 @@ class Scheduler:
             self._advance()
         for t in threads:
             t.start()
-        for t in threads:
-            t.join(self.join_s)
+        _join_all(threads, self.join_s)
         if any(t.is_alive() for t in threads):
             # let them run free and try once more; still alive => give up (daemon threads die with the worker)
             with self.cond:
                 self.free = True
                 self.stalled = True
                 self.cond.notify_all()
-            for t in threads:
-                t.join(self.join_s)
+            _join_all(threads, self.join_s / 2)
             raise SchedulerStall('threads did not finish')
         if self.stalled:
             raise SchedulerStall('a thread waited for the baton longer than the stall limit')
@@ -204,6 +203,13 @@ class Scheduler:
     def stats(self):
         return {'switches': self.switches, 'in_rounded': self.switches_in_rounded, 'in_mpfr_ctx': self.switches_in_mpfr_ctx,
                 'in_fpy_code': self.switches_in_with, 'in_eval': self.switches_in_eval, 'line_events': self.line_events}
+
+
+def _join_all(threads, budget_s):
+    """Joins with ONE overall deadline (a watchdog, never an oracle)."""
+    deadline = time.monotonic() + budget_s
+    for t in threads:
+        t.join(max(0.0, deadline - time.monotonic()))
 
 
 def run_free(task_lists, switch_interval=1e-6, join_s=120.0):
@@ -228,8 +234,7 @@ def run_free(task_lists, switch_interval=1e-6, join_s=120.0):
         threads = [threading.Thread(target=body, args=(i,), daemon=True) for i in range(len(task_lists))]
         for t in threads:
             t.start()
-        for t in threads:
-            t.join(join_s)
+        _join_all(threads, join_s)
         if any(t.is_alive() for t in threads):
             raise SchedulerStall('free-running threads did not finish')
     finally:
